@@ -39,6 +39,30 @@ def design(ctx):
     return out
 
 
+def inductive(ctx):
+    """Unbounded-length argument with Apalache: an inductive invariant of GwfConcurrent under A4 implies both
+    properties (spec/apalache/MC_GwfConcurrentInd.tla); the same obligation without A4 must fail."""
+    import shutil
+    import subprocess
+    import tempfile
+
+    exe = shutil.which("apalache-mc")
+    if not exe:
+        return {"skipped": "apalache-mc not on PATH"}
+    d = os.path.join(tlc.SPEC_DIR, "apalache")
+    out = tempfile.mkdtemp(prefix="apa-", dir=ctx.scratch)
+    res = {}
+    try:
+        for name, init, inv, length in (("Init=>IndInv", "Init", "IndInv", 0), ("IndInv/\\Next=>IndInv'", "IndInit", "IndInv", 1),
+                                        ("IndInv=>Safety", "IndInit", "Safety", 0)):
+            p = subprocess.run([exe, "check", "--init=" + init, "--inv=" + inv, "--length=%d" % length, "--out-dir=" + out, "MC_GwfConcurrentInd.tla"],
+                               cwd=d, stdout=subprocess.PIPE, stderr=subprocess.STDOUT, text=True, timeout=600)
+            res[name] = "proved" if "The outcome is: NoError" in p.stdout else "NOT proved"
+    finally:
+        shutil.rmtree(out, ignore_errors=True)
+    return res
+
+
 def gen(ctx, sel):
     cfg = ctx.tmp("concgen-%d.cfg" % random.getrandbits(32))
     open(cfg, "w").write(cfg_text("INIT GInit\nNEXT GNext\nINVARIANT Emit\nCHECK_DEADLOCK FALSE\n", sel, False))
@@ -166,6 +190,8 @@ def validate(ctx, recs):
 
 def probe(ctx, sels=("SelBoth", "SelSplit", "SelOverlap"), limit=None):
     info = {"design": design(ctx)}
+    if ctx.thorough:
+        info["apalache_inductive_invariant_under_A4"] = inductive(ctx)
     items = []
     for sel in sels:
         scheds = gen(ctx, sel)
